@@ -85,6 +85,26 @@ WORKSPACES = {
 QUERY = {"W1_types": ("u.f90", 4, 4), "W2_procs": ("b.f90", 9, 10), "W3_inherit": ("c.f90", 10, 9), "W4_preproc": ("pp.F90", 10, 4)}
 
 
+def single_line_edit(a: str, b: str):
+    """If texts a and b differ in exactly one line (same line count) return the LSP
+    content change (a ranged, single-line replacement) turning a into b, else None."""
+    la, lb = a.split("\n"), b.split("\n")
+    if len(la) != len(lb):
+        return None
+    diff = [i for i in range(len(la)) if la[i] != lb[i]]
+    if len(diff) != 1:
+        return None
+    i = diff[0]
+    x, y = la[i], lb[i]
+    p = 0
+    while p < min(len(x), len(y)) and x[p] == y[p]:
+        p += 1
+    q = 0
+    while q < min(len(x), len(y)) - p and x[len(x) - 1 - q] == y[len(y) - 1 - q]:
+        q += 1
+    return {"range": {"start": {"line": i, "character": p}, "end": {"line": i, "character": len(x) - q}}, "text": y[p:len(y) - q]}
+
+
 def initial_disk(ws):
     return {f: (0 if vs[0] is not None else None) for f, vs in WORKSPACES[ws].items()}
 
@@ -111,6 +131,8 @@ class Model:
                 for v in range(len(vs)):
                     if vs[v] is not None and v != self.buf[f]:
                         ev.append(("change", f, v))
+                        if single_line_edit(vs[self.buf[f]], vs[v]) is not None:
+                            ev.append(("edit", f, v))  # the same step as one ranged single-line edit
             elif on_disk:
                 ev.append(("open", f))
             else:
@@ -126,7 +148,7 @@ class Model:
         k, f = e[0], e[1]
         if k == "open":
             self.buf[f] = self.disk[f]
-        elif k == "change":
+        elif k in ("change", "edit"):
             self.buf[f] = e[2]
             self.dirty.add(f)
         elif k == "save":
@@ -178,6 +200,8 @@ def build(ws, history, root, fake_pool):
             s.open(path)
         elif k == "change":
             s.change(path, [{"text": text[e[2]]}])
+        elif k == "edit":
+            s.change(path, [single_line_edit(text[m.buf[f]], text[e[2]])])
         elif k == "save":
             with open(path, "w") as fh:
                 fh.write(text[m.buf[f]])
